@@ -57,6 +57,10 @@ val vmodel_parts :
   node -> bool -> node option -> str list -> (node * node option) * str list
   option
 
+val is_assignable : node -> bool
+
+val vmodel_target_check : node -> st -> st
+
 val parse_v_model :
   node -> bool -> node option -> str list -> st -> directive * st
 
